@@ -2965,8 +2965,11 @@ class RedunBackendDb(RedunBackend):
         """
         assert self.session
 
+        # Bind each value as a typed parameter: a bare None would be rendered as SQL NULL, and
+        # `value = NULL` never matches, so a tag whose value is JSON null could not be deleted.
         conditions = [
-            and_(Tag.key == key, Tag.value == sa_cast(value, JSON)) for key, value in tags
+            and_(Tag.key == key, Tag.value == sa_cast(sa.literal(value, JSON), JSON))
+            for key, value in tags
         ]
         if keys:
             conditions.append(Tag.key.in_(keys))
